@@ -851,7 +851,15 @@ func fillPartitionMapV2(ns string,
 		nlist := make([]string, replica)
 		partitionNodes[pid] = nlist
 		exclude := make([]string, 0)
-		exclude = append(exclude, oldlist...)
+		// only the old replicas that may be kept are excluded from the choice of a
+		// replacement; the surplus tail of a list that is longer than the replica
+		// number (a move in progress) must stay eligible, otherwise no candidate
+		// may be left at all
+		if len(oldlist) > replica {
+			exclude = append(exclude, oldlist[:replica]...)
+		} else {
+			exclude = append(exclude, oldlist...)
+		}
 		for j := 0; j < replica; j++ {
 			var old string
 			if len(oldlist) > j {
